@@ -234,6 +234,10 @@ func (e *SpecEnv) Eval(x SExpr) SV {
 				return SV{Term: e.Cur.Heap(h), Typ: v.Type()}
 			}
 		}
+		if e.G.CS != nil && e.G.CS.GhostNames[x.Name] {
+			// ghost integer constant: one SMT constant per name (binding by name between caller and callee)
+			return SV{Term: e.G.UF("ghost_"+x.Name, nil, SInt), Typ: types.Typ[types.Int]}
+		}
 		e.fail("unknown identifier %s", x.Name)
 	case SIntLit:
 		return SV{Term: x.V, Typ: types.Typ[types.Int]}
@@ -656,6 +660,23 @@ func (e *SpecEnv) evalCall(x SCall) SV {
 		// anything that existed at function entry; expanded from the Go type (XMLName fields excluded).
 		a, b := arg(0), arg(1)
 		return SV{Term: e.deepcopy(a, b, nil, 0), Typ: boolT}
+	case "deepcopyAbove":
+		// deepcopyAbove(a, b, n): deepcopy with an explicit lower bound n for the memory the copy is made of
+		a, b, n := arg(0), arg(1), arg(2)
+		if _, inSpec := e.Cur.(*recView); inSpec {
+			e.fail("deepcopyAbove() inside a spec function")
+		}
+		ne := e.clone()
+		ne.Next0 = n.Term
+		return SV{Term: ne.deepcopy(a, b, nil, 0), Typ: boolT}
+	case "loopBound":
+		// loopBound(): the allocation counter when the enclosing loop was entered (loop invariants only):
+		// everything allocated by the iterations lies at or above it, everything allocated before below it
+		sv, ok := e.Vars["#loopbound"]
+		if !ok {
+			e.fail("loopBound() outside a loop invariant")
+		}
+		return sv
 	case "allocBound":
 		// every array/object id allocated so far is below this bound
 		return SV{Term: e.Cur.Next(), Typ: intT}
@@ -809,6 +830,52 @@ func (e *SpecEnv) evalCall(x SCall) SV {
 		return SV{Term: e.G.structEq(a, b, e.Cur), Typ: boolT}
 	case "unchangedHeap":
 		return SV{Term: e.G.unchangedAll(e.Old, e.Cur, nil), Typ: boolT}
+	case "unchangedBelow":
+		// unchangedBelow(b): every heap agrees with its entry version on every object/array whose id is below b
+		return SV{Term: e.G.unchangedAllBound(e.Old, e.Cur, nil, arg(0).Term), Typ: boolT}
+	case "above":
+		// above(x, b): the object / backing array / map x refers to is nil (empty) or has an id >= b
+		v, b := arg(0), arg(1)
+		switch v.Typ.Underlying().(type) {
+		case *types.Slice:
+			return SV{Term: fmt.Sprintf("(or (= (sarr %s) 0) (>= (sarr %s) %s))", v.Term, v.Term, b.Term), Typ: boolT}
+		case *types.Interface:
+			return SV{Term: fmt.Sprintf("(or (= (iref %s) nil) (not (alloc (iref %s) %s)))", v.Term, v.Term, b.Term), Typ: boolT}
+		}
+		r := e.refOf(v)
+		return SV{Term: fmt.Sprintf("(or (= %s nil) (not (alloc %s %s)))", r, r, b.Term), Typ: boolT}
+	case "owned":
+		// owned(x, b): everything reachable from x along the Go type (the traversal of deepcopy, shared fields
+		// excepted) is nil or has an id >= b: the freshness half of deepcopy with an explicit bound
+		a, b := arg(0), arg(1)
+		ne := e.clone()
+		if _, inSpec := e.Cur.(*recView); inSpec {
+			e.fail("owned() inside a spec function")
+		}
+		ne.Next0 = b.Term
+		return SV{Term: ne.deepcopy(a, a, nil, 0), Typ: boolT}
+	case "elemOf":
+		// elemOf(p, "T"): p points into an array whose elements are of struct type T (allocation tag)
+		id, ok := x.Args[1].(SStrLit)
+		if !ok {
+			e.fail("elemOf wants a string literal type")
+		}
+		r := e.refOf(arg(0))
+		return SV{Term: fmt.Sprintf("(and ((_ is elem) %s) (= (%s (earr %s)) %d))", r, e.G.idTagUF(), r, e.G.TE.Tag(e.ResolveType(id.V))), Typ: boolT}
+	case "tagged":
+		// tagged(s, "T"): the slice s is nil or its backing array holds elements of struct type T
+		id, ok := x.Args[1].(SStrLit)
+		if !ok {
+			e.fail("tagged wants a string literal type")
+		}
+		v := arg(0)
+		return SV{Term: fmt.Sprintf("(or (= (sarr %s) 0) (= (%s (sarr %s)) %d))", v.Term, e.G.idTagUF(), v.Term, e.G.TE.Tag(e.ResolveType(id.V))), Typ: boolT}
+	case "live":
+		// live(p): p is allocated now
+		return SV{Term: fmt.Sprintf("(alloc %s %s)", e.refOf(arg(0)), e.Cur.Next()), Typ: boolT}
+	case "isElem":
+		// isElem(p): p points into a slice backing array (not a separately allocated object)
+		return SV{Term: fmt.Sprintf("((_ is elem) %s)", e.refOf(arg(0))), Typ: boolT}
 	case "unchangedExcept":
 		// unchangedExcept("T.f", "U.g", ...): every heap but the listed is equal on allocated refs
 		ex := map[string]bool{}
